@@ -9,4 +9,23 @@ CfgK3     == {[T |-> 4, K |-> 3, limit |-> 2, m |-> 1, maxProcs |-> 2, maxFaults
 CfgScriptA == {[T |-> 4, K |-> 2, limit |-> 4, m |-> 1, maxProcs |-> 1, maxFaults |-> 0]}
 CfgScriptB == {[T |-> 5, K |-> 3, limit |-> 3, m |-> 1, maxProcs |-> 1, maxFaults |-> 0]}
 CfgScriptC == {[T |-> 6, K |-> 3, limit |-> 3, m |-> 2, maxProcs |-> 1, maxFaults |-> 0]}
+(* ---- TiccLoop implements the control skeleton LoopCore (pool steps, statistics, submission and all but the last
+        gather stutter) ---- *)
+CorePc == CASE pc = "call" -> "call"
+            [] pc \in {"open", "top"} -> "top"
+            [] pc \in {"stats", "submit", "gather"} -> "fit"
+            [] pc = "relabel" -> "relabel"
+            [] pc = "decide" -> "decide"
+            [] pc \in {"closing", "metrics", "returned"} -> "done"
+            [] OTHER -> "failed"
+Core == INSTANCE LoopCore WITH ccfg <- [T |-> cfg.T, K |-> cfg.K, limit |-> cfg.limit], cpc <- CorePc, crnd <- round,
+                               clab <- labels, cprev <- prev, cexit <- exit,
+                               CoreConfigs <- {[T |-> c.T, K |-> c.K, limit |-> c.limit] : c \in Configs}
+RefinesCore == Core!Spec
+\* a deliberately wrong mapping (self-test): statistics mapped to "top", so the core never passes through "fit"
+BadCorePc == IF pc = "stats" THEN "top" ELSE CorePc
+BadCore == INSTANCE LoopCore WITH ccfg <- [T |-> cfg.T, K |-> cfg.K, limit |-> cfg.limit], cpc <- BadCorePc, crnd <- round,
+                                  clab <- labels, cprev <- prev, cexit <- exit,
+                                  CoreConfigs <- {[T |-> c.T, K |-> c.K, limit |-> c.limit] : c \in Configs}
+RefinesBadCore == BadCore!Spec
 =============================================================================
